@@ -88,7 +88,7 @@ def log_grid(level):
             _log(None, 1, None, None, False, "fresh"),
             _log(None, None, 2, None, False, "fresh"),
             _log(None, None, None, 2, False, "fresh"),
-            _log(None, 2, 2, None, True, "fresh"),
+            _log(None, 1, 2, None, False, "fresh"),
             _log(3, 1, 3, 2, True, "existing_overwrite"),
             _log(None, 1, None, None, False, "existing_nonempty"),
         ]
@@ -127,6 +127,12 @@ def chunk(items, cost, budget):
     if cur:
         out.append(cur)
     return out
+
+
+def self_check():
+    assert len(log_grid("full")) == 540 and len(log_grid("two")) == 70 and len(log_grid("diag")) == 13
+    assert len({json.dumps(g, sort_keys=True) for g in log_grid("full")}) == 540
+    assert n_active(log_grid("full")[0]) == 0  # simplest first
 
 
 # ------------------------------------------------------------------------------------------
@@ -182,19 +188,19 @@ def shards(tier, seed):
     out = []
     # ---- new interpreters under different hash seeds (long shards first)
     if quick:
-        for algo in L.ALGOS:
-            out.append({"kind": "interp", "algo": algo, "models": list(L.MODELS), "seed": 0})
+        for group in (["pers_scipy"], list(L.FIT_SAMPLERS), ["pers_mode", "pers_mean", "simulate"]):
+            out.append({"kind": "interp", "cases": [{"algo": a, "model": m, "seed": 0} for a in group for m in L.MODELS]})
     else:
         for algo in L.ALGOS:
             for model in L.MODELS:
                 for s in seeds:
-                    out.append({"kind": "interp", "algo": algo, "models": [model], "seed": s})
+                    out.append({"kind": "interp", "cases": [{"algo": algo, "model": model, "seed": s}]})
 
     budget = 25.0 if quick else 60.0
 
-    def emit(algo, model, cases):
+    def emit(algo, cases):
         for part in chunk(cases, case_cost, budget):
-            out.append({"kind": "cases", "algo": algo, "model": model, "cases": part})
+            out.append({"kind": "cases", "algo": algo, "cases": part})
 
     def hist(algo, model, ss, logs, priors):
         return [{"seed": s, "log": log, "route": "settings", "prior": p} for s in ss for log in logs for p in priors
@@ -203,8 +209,9 @@ def shards(tier, seed):
     def grid(s, level, route):
         return [{"seed": s, "log": g, "route": route, "prior": "nothing"} for g in log_grid(level)]
 
-    # ---- histories, then logging grids (simplest first)
+    # ---- per algorithm: histories, then logging grids (simplest first)
     for algo in L.ALGOS:
+        todo = []
         for model in L.MODELS:
             fit = algo in L.FIT_SAMPLERS
             if algo == "pers_scipy" and quick:
@@ -212,8 +219,7 @@ def shards(tier, seed):
             else:
                 logs = [None, CHEAP_LOG] + ([PLOT_LOG] if fit and not quick else [])
                 cases = hist(algo, model, seeds, logs, list(L.PRIORS))
-            emit(algo, model, [dict(c, algo=algo, model=model) for c in cases])
-    for algo in L.ALGOS:
+            todo += [dict(c, algo=algo, model=model) for c in cases]
         for model in L.MODELS:
             fit = algo in L.FIT_SAMPLERS
             if quick:
@@ -236,7 +242,8 @@ def shards(tier, seed):
                 for s in seeds:
                     cases += grid(s, level, "settings")
                 cases += grid(0, "diag", "kwargs")
-            emit(algo, model, [dict(c, algo=algo, model=model) for c in cases])
+            todo += [dict(c, algo=algo, model=model) for c in cases]
+        emit(algo, todo)
     return out
 
 
@@ -373,12 +380,12 @@ def interp_signature(algo, obs, base):
 
 
 def run_interp(acc, shard):
-    algo, models, s = shard["algo"], shard["models"], shard["seed"]
-    cases = [{"algo": algo, "model": m, "seed": s} for m in models]
+    cases = shard["cases"]
     results = L.run_in_new_interpreters([(cases, h) for h in HASHSEEDS], concurrency=3)
     base = results[0]
     for h, res in zip(HASHSEEDS, results):
         for c, obs, b in zip(cases, res, base):
+            algo = c["algo"]
             acc.evaluation()
             full = dict(c, interp="new", hashseed=h)
             acc.nontriv(case_key(full))
@@ -394,7 +401,7 @@ def run_interp(acc, shard):
                               {"check": "interp", "cases": cases, "hashseeds": [HASHSEEDS[0], h], "index": cases.index(c)},
                               expected={p: (b.get("values") or {}).get(p) for p in parts[:4]},
                               observed={p: (obs.get("values") or {}).get(p) for p in parts[:4]})
-    if len(acc.samples) < 1:
+    if cases[0] == {"algo": "pers_scipy", "model": "logistic", "seed": 0}:
         acc.sample({"new interpreters": cases, "digest per PYTHONHASHSEED": {str(h): [o.get("digest") or o["kind"] for o in r]
                                                                              for h, r in zip(HASHSEEDS, results)}})
     # the pool worker (which has its own, longer history) must agree with the new interpreter too
